@@ -21,7 +21,8 @@ def main(argv):
         tier = os.environ.get('VERIF_TIER', 'quick')
     seed = int(os.environ.get('VERIF_SEED', '0') or 0)
     import rbql
-    if not os.path.realpath(rbql.__file__).startswith('/repo/'):
+    from vf.paths import REPO
+    if not os.path.realpath(rbql.__file__).startswith(REPO + '/'):
         print('HARNESS-ERROR rbql resolves to %s, not to /repo' % rbql.__file__)
         return 2
     try:
